@@ -10,6 +10,8 @@ import PkVerif.Gen.C19
     cpbegin I FAULT DQ pre|post         copy parked before/after queue.Delete -> parked | ok | fail | notpending | busy
     cpend I                             finish the parked copy             -> ok | none
     drain FAULT I,I,â€¦|-                 runSync until a batch copies nothing (listed ids fail with FAULT) -> copied=N | busy
+    drainfirst FAULT K                  runSync loop; the first K attempts fail (fetcherr*/desterr*) -> copied=N | busy
+    outage FAULT / recover              (live) the source/destination is down for every call / is back -> ok
     restart                             crash + readQueueToMemory          -> need=N   (live: ok)
     dump                                                                    -> state line
     live                                (first op only) real syncLoop mode: only `up I ok`, `restart`, `settle`
@@ -126,6 +128,13 @@ def drainLoop (v : Variant) (f : Fault) (bad : List Nat) : Nat â†’ St â†’ Nat â†
 def drain (v : Variant) (s : St) (f : Fault) (bad : List Nat) : St Ã— Nat :=
   drainLoop v f bad (s.need.length + 2) s 0
 
+/-- the faults of `drainfirst` / `outage`: unconditional and without effect -/
+def parseOutage (w : String) : Option Fault :=
+  match parseFault w with
+  | some (.fetchErr k) => some (.fetchErr k)
+  | some (.destErr k) => some (.destErr k)
+  | _ => none
+
 def stepLive (v : Variant) (d : DSt) (ws : List String) : DSt Ã— String :=
   match ws with
   | ["up", i, "ok"] =>
@@ -135,6 +144,8 @@ def stepLive (v : Variant) (d : DSt) (ws : List String) : DSt Ã— String :=
       ({ d with s := s }, "ack")
     | none => (d, "bad-op")
   | ["restart"] => ({ d with s := step v d.s .restart, pu := [], pc := [] }, "ok")
+  | ["outage", f] => if (parseOutage f).isSome then (d, "ok") else (d, "bad-op")
+  | ["recover"] => (d, "ok")
   | ["settle"] =>
     let r := drain v d.s .ok []
     let d' := { d with s := r.1 }
@@ -207,6 +218,18 @@ def stepV (v : Variant) (d : DSt) (ws : List String) : DSt Ã— String :=
       if !d.pc.isEmpty then (d, "busy") else
       let r := drain v d.s f bad
       ({ d with s := r.1 }, s!"copied={r.2}")
+    | _, _ => (d, "bad-op")
+  | ["drainfirst", f, k] =>
+    -- the first `k` copy attempts of the drain fail (whichever blobs the worker pool picks), the
+    -- later ones are clean: if the whole first batch fails nothing is copied and the loop ends;
+    -- otherwise the batch copies something, the loop goes on and everything pending is copied
+    match parseOutage f, parseId k with
+    | some _, some k =>
+      if !d.pc.isEmpty then (d, "busy")
+      else if k â‰¥ d.s.need.length then (d, "copied=0")
+      else
+        let r := drain v d.s .ok []
+        ({ d with s := r.1 }, s!"copied={r.2}")
     | _, _ => (d, "bad-op")
   | ["restart"] =>
     let s := step v d.s .restart
